@@ -43,7 +43,7 @@ def generate(rng, tier):
     cases = []
     thorough = tier == "thorough"
     specs = specs_pool(rng, 40 if thorough else 10)
-    for k in range(20000 if thorough else 2500):
+    for k in range(20000 * TH if thorough else 2500):
         if k % 4 == 0:
             sp = rng.choice(specs)
             data, kind = adversarial(rng, sp), "adversarial"
